@@ -90,6 +90,8 @@ def main() -> int:
 
     exit_code = 0
     replay_root = VERIF / "replays" / prop
+    if replay_root.exists():
+        shutil.rmtree(replay_root, ignore_errors=True)   # replays of earlier runs do not belong to this one
     lines = []
     for fid, n in sorted(known_hits.items()):
         lines.append(f"KNOWN-FINDING: property={prop} {fid}: {known_by_id[fid]['what']} ({n} inputs)")
